@@ -13,8 +13,8 @@
 
   Section 6 ("closed over the stream unit") restates the headline theorems with `D` DISCHARGED by the delivered C03/C04
   theorems: for both engine models (`S : EngineSim E α`, instances `referenceSim` and `sse2Sim`), key lengths 16 and 32,
-  12-byte nonces, R ∈ {8, 12, 20} (`Spec.Aead.Valid`).  The only remaining hypothesis is `M : MacDeps` (C05 of the
-  poly1305 unit, not yet delivered when this file was written).
+  12-byte nonces, R ∈ {8, 12, 20} (`Spec.Aead.Valid`), and `M` discharged by the poly1305 unit's C05 theorem
+  (`Cx.Proofs.Aead.macDeps`): those theorems have NO hypothesis beyond the domain guards.
 -/
 import CxVerif.Proofs.AeadOneShot
 import CxVerif.Proofs.AeadDeps
@@ -201,7 +201,7 @@ theorem streamed_roundtrip (D : CipherDeps E R key nonce At) (M : MacDeps) (as :
     simp [Spec.Aead.cipher, Spec.ChaCha.encrypt, encrypt_invol]
   simp [hinvol, Spec.Aead.encrypt]
 
-/-! ## 6. closed over the stream unit: hypotheses = the domain guards and `MacDeps` only -/
+/-! ## 6. closed over the stream unit: NO hypotheses beyond the domain guards -/
 
 section closed
 open Cx.Proofs.ChaCha
@@ -216,64 +216,64 @@ theorem aead_new (S : EngineSim E α) (hk : Spec.ChaCha.validKey key) (hn : nonc
   with_cipher S hk hn hR fun At D => ⟨At, D, new_otk_block0_data_block1 D⟩
 
 /-- **C06, streamed encryption = RFC 8439 for every partition** -/
-theorem aead_streamed_encrypt (S : EngineSim E α) (M : MacDeps) (as : List Bytes) (ps : List (Bytes × Bool))
+theorem aead_streamed_encrypt (S : EngineSim E α) (as : List Bytes) (ps : List (Bytes × Bool))
     (hv : Spec.Aead.Valid R key nonce as.flatten (ps.map (·.1)).flatten) :
     runNew E R key nonce (encProg as ps) =
       .ok ((cutAt (ps.map (·.1.length)) (Spec.Aead.encrypt R key nonce as.flatten (ps.map (·.1)).flatten).1).map Out.bytes
            ++ [.bytes (Spec.Aead.encrypt R key nonce as.flatten (ps.map (·.1)).flatten).2]) :=
-  with_cipher S hv.2.1 hv.2.2.1 hv.1 fun _ D => streamed_encrypt_eq_spec D M as ps hv.2.2.2.1 hv.2.2.2.2
+  with_cipher S hv.2.1 hv.2.2.1 hv.1 fun _ D => streamed_encrypt_eq_spec D macDeps as ps hv.2.2.2.1 hv.2.2.2.2
 
 /-- **C06, streamed decryption for every partition** -/
-theorem aead_streamed_decrypt (S : EngineSim E α) (M : MacDeps) (as : List Bytes) (ps : List (Bytes × Bool))
+theorem aead_streamed_decrypt (S : EngineSim E α) (as : List Bytes) (ps : List (Bytes × Bool))
     (t : Bytes) (ht : t.length = 16) (hv : Spec.Aead.Valid R key nonce as.flatten (ps.map (·.1)).flatten) :
     runNew E R key nonce (decProg as ps t) =
       .ok ((cutAt (ps.map (·.1.length)) (Spec.Aead.cipher R key nonce (ps.map (·.1)).flatten)).map Out.bytes
            ++ [.verdict (decide (t = Spec.Aead.tag R key nonce as.flatten (ps.map (·.1)).flatten))]) :=
-  with_cipher S hv.2.1 hv.2.2.1 hv.1 fun _ D => streamed_decrypt_eq_spec D M as ps t ht hv.2.2.2.1 hv.2.2.2.2
+  with_cipher S hv.2.1 hv.2.2.1 hv.1 fun _ D => streamed_decrypt_eq_spec D macDeps as ps t ht hv.2.2.2.1 hv.2.2.2.2
 
 /-- **C06, one-shot encryption = RFC 8439** -/
-theorem aead_oneshot_encrypt (S : EngineSim E α) (M : MacDeps) (aad pt : Bytes)
+theorem aead_oneshot_encrypt (S : EngineSim E α) (aad pt : Bytes)
     (hv : Spec.Aead.Valid R key nonce aad pt) :
     ∃ o o', ChaChaPoly1305.new E R key nonce aad = .ok o ∧
       ChaChaPoly1305.encrypt E R o pt pt.length 16 =
         .ok (o', (Spec.Aead.encrypt R key nonce aad pt).1, (Spec.Aead.encrypt R key nonce aad pt).2) ∧
       o'.finished = true :=
-  with_cipher S hv.2.1 hv.2.2.1 hv.1 fun _ D => oneshot_encrypt_eq_spec D M aad pt hv.2.2.2.1 hv.2.2.2.2
+  with_cipher S hv.2.1 hv.2.2.1 hv.1 fun _ D => oneshot_encrypt_eq_spec D macDeps aad pt hv.2.2.2.1 hv.2.2.2.2
 
 /-- **C06, one-shot decryption = RFC 8439** -/
-theorem aead_oneshot_decrypt (S : EngineSim E α) (M : MacDeps) (aad ct tag : Bytes) (ht : tag.length = 16)
+theorem aead_oneshot_decrypt (S : EngineSim E α) (aad ct tag : Bytes) (ht : tag.length = 16)
     (hv : Spec.Aead.Valid R key nonce aad ct) :
     ∃ o o' out v, ChaChaPoly1305.new E R key nonce aad = .ok o ∧
       ChaChaPoly1305.decrypt E R o ct ct.length tag = .ok (o', out, v) ∧ o'.finished = true ∧
       (if v then some out else none) = Spec.Aead.decrypt R key nonce aad ct tag :=
-  with_cipher S hv.2.1 hv.2.2.1 hv.1 fun _ D => oneshot_decrypt_eq_spec D M aad ct tag hv.2.2.2.1 hv.2.2.2.2 ht
+  with_cipher S hv.2.1 hv.2.2.1 hv.1 fun _ D => oneshot_decrypt_eq_spec D macDeps aad ct tag hv.2.2.2.1 hv.2.2.2.2 ht
 
 /-- **C06, one-shot = streamed** -/
-theorem aead_oneshot_eq_streamed (S : EngineSim E α) (M : MacDeps) (as : List Bytes) (ps : List (Bytes × Bool))
+theorem aead_oneshot_eq_streamed (S : EngineSim E α) (as : List Bytes) (ps : List (Bytes × Bool))
     (hv : Spec.Aead.Valid R key nonce as.flatten (ps.map (·.1)).flatten) :
     ∃ o o' ct tag, ChaChaPoly1305.new E R key nonce as.flatten = .ok o ∧
       ChaChaPoly1305.encrypt E R o (ps.map (·.1)).flatten (ps.map (·.1)).flatten.length 16 = .ok (o', ct, tag) ∧
       runNew E R key nonce (encProg as ps) = .ok ((cutAt (ps.map (·.1.length)) ct).map Out.bytes ++ [.bytes tag]) :=
-  with_cipher S hv.2.1 hv.2.2.1 hv.1 fun _ D => oneshot_eq_streamed D M as ps hv.2.2.2.1 hv.2.2.2.2
+  with_cipher S hv.2.1 hv.2.2.1 hv.1 fun _ D => oneshot_eq_streamed D macDeps as ps hv.2.2.2.1 hv.2.2.2.2
 
 /-- **C06, decrypt (encrypt …) = (pt, true)**, one-shot -/
-theorem aead_oneshot_roundtrip (S : EngineSim E α) (M : MacDeps) (aad pt : Bytes)
+theorem aead_oneshot_roundtrip (S : EngineSim E α) (aad pt : Bytes)
     (hv : Spec.Aead.Valid R key nonce aad pt) :
     ∃ o o1 ct tag o2, ChaChaPoly1305.new E R key nonce aad = .ok o ∧
       ChaChaPoly1305.encrypt E R o pt pt.length 16 = .ok (o1, ct, tag) ∧
       ChaChaPoly1305.decrypt E R o ct ct.length tag = .ok (o2, pt, true) :=
-  with_cipher S hv.2.1 hv.2.2.1 hv.1 fun _ D => oneshot_roundtrip D M aad pt hv.2.2.2.1 hv.2.2.2.2
+  with_cipher S hv.2.1 hv.2.2.1 hv.1 fun _ D => oneshot_roundtrip D macDeps aad pt hv.2.2.2.1 hv.2.2.2.2
 
 /-- **C06, decrypt (encrypt …) = (pt, true)**, streamed, any two independent partitions -/
-theorem aead_streamed_roundtrip (S : EngineSim E α) (M : MacDeps) (as : List Bytes) (pt : Bytes)
+theorem aead_streamed_roundtrip (S : EngineSim E α) (as : List Bytes) (pt : Bytes)
     (cs : List (Bytes × Bool)) (hcs : (cs.map (·.1)).flatten = (Spec.Aead.encrypt R key nonce as.flatten pt).1)
     (hv : Spec.Aead.Valid R key nonce as.flatten pt) :
     runNew E R key nonce (decProg as cs (Spec.Aead.encrypt R key nonce as.flatten pt).2) =
       .ok ((cutAt (cs.map (·.1.length)) pt).map Out.bytes ++ [.verdict true]) :=
-  with_cipher S hv.2.1 hv.2.2.1 hv.1 fun _ D => streamed_roundtrip D M as pt cs hcs hv.2.2.2.1 hv.2.2.2.2
+  with_cipher S hv.2.1 hv.2.2.1 hv.1 fun _ D => streamed_roundtrip D macDeps as pt cs hcs hv.2.2.2.1 hv.2.2.2.2
 
 /-- the MAC input for any history, closed -/
-theorem aead_mac_input_any_history (S : EngineSim E α) (M : MacDeps) (hk : Spec.ChaCha.validKey key)
+theorem aead_mac_input_any_history (S : EngineSim E α) (hk : Spec.ChaCha.validKey key)
     (hn : nonce.length = 12) (hR : Spec.ChaCha.validRounds R) (ops : List Op) (a : AbsSt)
     (outs : List Out) (h : absRun R key nonce ⟨.aad, [], []⟩ ops = some (a, outs))
     (hph : a.phase = .enc ∨ a.phase = .dec) (hb : a.aad.length < 2 ^ 64 ∧ a.ct.length < 2 ^ 64) :
@@ -282,7 +282,7 @@ theorem aead_mac_input_any_history (S : EngineSim E α) (M : MacDeps) (hk : Spec
       st.2.aad_len = a.aad.length ∧ st.2.data_len = a.ct.length ∧
       ∃ c', finalize_raw st.2 =
         .ok (c', Spec.Poly1305.mac (Spec.Aead.polyKeyGen R key nonce) (Spec.Aead.macData a.aad a.ct)) :=
-  with_cipher S hk hn hR fun _ D => mac_input_any_history D M ops a outs h hph hb
+  with_cipher S hk hn hR fun _ D => mac_input_any_history D macDeps ops a outs h hph hb
 
 end closed
 
